@@ -79,8 +79,8 @@ def workload(tier):
               "merge into t using s on t.k = s.k when not matched then insert (a) values (s.a, s.b)",
               "merge into t using s on t.k = s.k when not matched then insert (a, b) values (s.a)",
               "update t set a = 1, b = (select 1)", "insert into t (a, b) select 1", "insert into t (a) select 1, 2 from u",
-              "create table t (a int, b int) as select 1", "select * from (values (1)) as v", "alter table rename to", "rename table a to", "drop table"]:
-        for d in (alld + ["non-validating"]) if tier == "thorough" else ["ansi", "vertica", "mysql", "tsql", "non-validating", "sparksql", "bigquery"]:
+              "create table t (a int, b int) as select 1", "SELECT seq4() FROM table(generator()) v", "select * from table(f(1)) t join lateral (select 1) u", "select * from (values (1)) as v", "alter table rename to", "rename table a to", "drop table"]:
+        for d in (alld + ["non-validating"]) if tier == "thorough" else ["ansi", "vertica", "mysql", "tsql", "non-validating", "sparksql", "bigquery", "exasol", "oracle", "snowflake"]:
             add("handcrafted", x, d)
     return cases
 
